@@ -304,6 +304,15 @@ package raft
 //@   val z = makeInstallSnapshotResponse(y)
 //@   ensures [eq] z == x
 
+// The bundled transport hands the gRPC client exactly what the converter produced (no field is
+// touched between the conversion and the call) and returns the conversion of what came back.
+//@ func transport.SendInstallSnapshot
+//@   at call client.InstallSnapshot assert [sent-verbatim] arg1 != nil && arg1.Leader == request.LeaderID && arg1.Term == request.Term && arg1.LastIncludedIndex == request.LastIncludedIndex && arg1.LastIncludedTerm == request.LastIncludedTerm && arg1.Configuration == request.Configuration && arg1.Data == request.Bytes && arg1.Offset == request.Offset && arg1.Done == request.Done
+//@ func transport.SendRequestVote
+//@   at call client.RequestVote assert [sent-verbatim] arg1 != nil && arg1.CandidateId == request.CandidateID && arg1.Term == request.Term && arg1.LastLogIndex == request.LastLogIndex && arg1.LastLogTerm == request.LastLogTerm && arg1.Prevote == request.Prevote
+//@ func transport.SendAppendEntries
+//@   requires forall j int :: 0 <= j && j < len(request.Entries) ==> request.Entries[j] != nil
+//@   at call client.AppendEntries assert [sent-verbatim] arg1 != nil && arg1.LeaderId == request.LeaderID && arg1.Term == request.Term && arg1.LeaderCommit == request.LeaderCommit && arg1.PrevLogIndex == request.PrevLogIndex && arg1.PrevLogTerm == request.PrevLogTerm && len(arg1.Entries) == len(request.Entries) && forall j int :: 0 <= j && j < len(request.Entries) ==> protoOf(arg1.Entries[j], request.Entries[j])
 //@ func makeProtoInstallSnapshotRequest
 //@   ensures [fields] result != nil && result.Leader == request.LeaderID && result.Term == request.Term && result.LastIncludedIndex == request.LastIncludedIndex && result.LastIncludedTerm == request.LastIncludedTerm && result.Configuration == request.Configuration && result.Data == request.Bytes && result.Offset == request.Offset && result.Done == request.Done
 //@ func makeInstallSnapshotRequest
